@@ -1,8 +1,8 @@
-\* (s) 2 nodes smoke
+\* (e) 3 nodes, hard / weak / both (same key in deps and weak_deps), <= 4 edges
 SPECIFICATION Spec
 CONSTANTS
-    N = 2
-    EdgeKinds = {"h", "w", "m", "c", "b"}
+    N = 3
+    EdgeKinds = {"h", "w", "b"}
     MaxEdges = 4
     DangKinds = {}
     Emit = TRUE
